@@ -54,6 +54,7 @@ type rCase struct {
 	// one of
 	Toks   []string `json:"toks,omitempty"`
 	Bad    string   `json:"bad,omitempty"`
+	Ends   []string `json:"ends,omitempty"`
 	Graph  [][]int  `json:"graph,omitempty"`
 	Fmt    string   `json:"fmt,omitempty"`
 	Faults []rFault `json:"faults,omitempty"`
@@ -307,6 +308,26 @@ func ttfSegmentsProgram(n int) []byte {
 	return append(out, body...)
 }
 
+// ttfDocStreams: the TrueType document with the payloads of its two streams (page content, font program) passed through hook
+func ttfDocStreams(hook func(raw []byte, binary bool) []byte) ([]byte, int, error) {
+	prog, _ := ttfProgram(nil)
+	ttfContentHook = func(raw []byte) []byte { return hook(raw, false) }
+	defer func() { ttfContentHook = nil }()
+	b, err := ttfDocWith(hook(prog, true))
+	return b, 0, err
+}
+
+var ttfContentHook func(raw []byte) []byte
+
+func ttfContent() []byte {
+	// the text sits in a marked-content sequence whose property list is a dictionary operand
+	raw := []byte("/P << /MCID 0 /Lang (en) >> BDC BT /F1 12 Tf 20 100 Td (ABC " + c20Token + ") Tj ET EMC")
+	if ttfContentHook != nil {
+		raw = ttfContentHook(raw)
+	}
+	return raw
+}
+
 func ttfDocWith(prog []byte) ([]byte, error) {
 	f := &pdfw.File{EOL: "lf"}
 	f.Revs = []pdfw.Revision{{XRef: "table", Root: pdfw.Ref{Num: 1}, Items: []pdfw.Item{
@@ -314,7 +335,7 @@ func ttfDocWith(prog []byte) ([]byte, error) {
 		{Num: 2, Val: pdfw.Dict{{"Type", pdfw.Name("Pages")}, {"Kids", pdfw.Arr{pdfw.Ref{Num: 3}}}, {"Count", pdfw.Int(1)}}},
 		{Num: 3, Val: pdfw.Dict{{"Type", pdfw.Name("Page")}, {"Parent", pdfw.Ref{Num: 2}}, {"MediaBox", pdfw.Arr{pdfw.Int(0), pdfw.Int(0), pdfw.Int(300), pdfw.Int(300)}},
 			{"Resources", pdfw.Dict{{"Font", pdfw.Dict{{"F1", pdfw.Ref{Num: 5}}}}}}, {"Contents", pdfw.Ref{Num: 4}}}},
-		{Num: 4, Stm: &pdfw.Stream{Data: []byte("BT /F1 12 Tf 20 100 Td (ABC " + c20Token + ") Tj ET")}},
+		{Num: 4, Stm: &pdfw.Stream{Data: ttfContent()}},
 		{Num: 5, Val: pdfw.Dict{{"Type", pdfw.Name("Font")}, {"Subtype", pdfw.Name("TrueType")}, {"BaseFont", pdfw.Name("ABCDEF+Verif")}, {"FirstChar", pdfw.Int(65)}, {"LastChar", pdfw.Int(67)},
 			{"Widths", pdfw.Arr{pdfw.Int(500), pdfw.Int(600), pdfw.Int(700)}}, {"Encoding", pdfw.Name("WinAnsiEncoding")}, {"FontDescriptor", pdfw.Ref{Num: 6}}}},
 		{Num: 6, Val: pdfw.Dict{{"Type", pdfw.Name("FontDescriptor")}, {"FontName", pdfw.Name("ABCDEF+Verif")}, {"Flags", pdfw.Int(32)},
@@ -717,7 +738,84 @@ func fieldDoc(fmtName string, site int, param string) ([]byte, int, error) {
 	return b, n, err
 }
 
+// "payload" faults: what sits inside one stream (a page content part, a ToUnicode program, the embedded font program)
+// is damaged at a token boundary - cut there ("cut"), cut with a white-space character left behind ("cutsp": the
+// operand or section is open and the scanner has skipped to the end), or one token removed ("drop") - and the file
+// is laid out around the damaged payload: filters, /Length, offsets and the cross-reference data are those of a
+// well-formed file. Sites are the token boundaries of all payloads in writing order.
+func payloadBoundaries(raw []byte, binary bool) []int {
+	if binary {
+		// a font program: every 16-bit boundary
+		var out []int
+		for p := 0; p <= len(raw); p += 2 {
+			out = append(out, p)
+		}
+		return out
+	}
+	isSep := func(c byte) bool {
+		switch c {
+		case ' ', '\n', '\r', '\t', '<', '>', '[', ']', '(', ')', '/':
+			return true
+		}
+		return false
+	}
+	var out []int
+	for p := 0; p <= len(raw); p++ {
+		if p == 0 || p == len(raw) || isSep(raw[p-1]) != isSep(raw[p]) || (isSep(raw[p]) && raw[p] != ' ') {
+			out = append(out, p)
+		}
+	}
+	return out
+}
+
+func payloadDamage(raw []byte, at int, bs []int, param string) []byte {
+	p := bs[at]
+	switch param {
+	case "cutsp":
+		return append(append([]byte{}, raw[:p]...), ' ')
+	case "drop":
+		end := len(raw)
+		if at+1 < len(bs) {
+			end = bs[at+1]
+		}
+		return append(append([]byte{}, raw[:p]...), raw[end:]...)
+	}
+	return append([]byte{}, raw[:p]...)
+}
+
+func payloadDoc(fmtName string, site int, param string) ([]byte, int, error) {
+	n := 0
+	hook := func(raw []byte, binary bool) []byte {
+		bs := payloadBoundaries(raw, binary)
+		start := n
+		n += len(bs)
+		if site >= start && site < n {
+			return payloadDamage(raw, site-start, bs, param)
+		}
+		return raw
+	}
+	if fmtName == "pdf-ttf" {
+		b, _, err := ttfDocStreams(hook)
+		return b, n, err
+	}
+	pdfdoc.RawFault = func(raw []byte) []byte { return hook(raw, false) }
+	defer func() { pdfdoc.RawFault = nil }()
+	b, _, err := c02BaseDoc(fmtName)
+	return b, n, err
+}
+
 func applyFault(fmtName string, b []byte, f rFault, k int) []byte {
+	if f.Kind == "payload" {
+		_, n, err := payloadDoc(fmtName, -1, "")
+		if err != nil || n == 0 {
+			return b
+		}
+		nb, _, err := payloadDoc(fmtName, pick(n, f.Site, k), f.Param)
+		if err != nil {
+			return b
+		}
+		return nb
+	}
 	if f.Kind == "field" {
 		_, n, err := fieldDoc(fmtName, -1, "")
 		if err != nil || n == 0 {
@@ -757,6 +855,10 @@ func siteCount(fmtName string, b []byte, kind string) int {
 	}
 	if kind == "field" {
 		_, n, _ := fieldDoc(fmtName, -1, "")
+		return n
+	}
+	if kind == "payload" {
+		_, n, _ := payloadDoc(fmtName, -1, "")
 		return n
 	}
 	if strings.HasPrefix(fmtName, "pdf") {
@@ -1177,12 +1279,30 @@ func c02RunCase(idx int, c *rCase, announce func(sub int)) caseResult {
 	case c.Toks != nil:
 		b := renderToks(c.Toks, c.Bad)
 		res.Faulty = true
-		res.Calls = append(res.Calls, guarded("core.ParseObject", func() error { _, err := core.NewParser(bytes.NewReader(b)).ParseObject(); return err }))
-		res.Calls = append(res.Calls, guarded("core.ParseIndirectObject", func() error {
-			_, err := core.NewParser(bytes.NewReader(append([]byte("1 0 obj "), b...))).ParseIndirectObject()
-			return err
-		}))
-		res.Calls = append(res.Calls, guarded("contentstream.Parse", func() error { _, err := contentstream.NewParser(append(b, []byte("Tj")...)).Parse(); return err }))
+		ends := c.Ends
+		if len(ends) == 0 {
+			ends = []string{"op"}
+		}
+		for _, end := range ends {
+			// b ends in one space
+			in := append([]byte{}, b...)
+			tail := "Tj"
+			switch end {
+			case "sp":
+				tail = ""
+			case "eod":
+				in, tail = in[:len(in)-1], ""
+			}
+			res.Calls = append(res.Calls, guarded("core.ParseObject/"+end, func() error { _, err := core.NewParser(bytes.NewReader(in)).ParseObject(); return err }))
+			res.Calls = append(res.Calls, guarded("core.ParseIndirectObject/"+end, func() error {
+				_, err := core.NewParser(bytes.NewReader(append([]byte("1 0 obj "), in...))).ParseIndirectObject()
+				return err
+			}))
+			res.Calls = append(res.Calls, guarded("contentstream.Parse/"+end, func() error {
+				_, err := contentstream.NewParser(append(append([]byte{}, in...), []byte(tail)...)).Parse()
+				return err
+			}))
+		}
 	case c.Graph != nil:
 		files, err := graphPDFs(c.Graph)
 		if err != nil {
@@ -1229,12 +1349,12 @@ func c02RunCase(idx int, c *rCase, announce func(sub int)) caseResult {
 				k = 0
 			}
 			for _, f := range fs { // faults inside encoded streams rebuild the document: they go first
-				if f.Kind == "instream" || f.Kind == "field" {
+				if f.Kind == "instream" || f.Kind == "field" || f.Kind == "payload" {
 					b = applyFault(c.Fmt, b, f, k)
 				}
 			}
 			for _, f := range fs {
-				if f.Kind != "instream" && f.Kind != "field" {
+				if f.Kind != "instream" && f.Kind != "field" && f.Kind != "payload" {
 					b = applyFault(c.Fmt, b, f, k)
 				}
 			}
